@@ -94,6 +94,7 @@ enum Ev {
     Elapse(u64),
     AnnounceRefs(usize),
     AddInventory(usize),
+    Tick(u64),
 }
 
 struct Scenario {
@@ -322,6 +323,10 @@ fn apply(w: &mut World, ev: &Ev, pool: &[AnnSpec]) {
             let (tx, _rx) = crossbeam_channel::bounded(1);
             w.alice.command(Command::AddInventory(w.rids[*r], tx));
         }
+        Ev::Tick(now) => {
+            let m = service::Metrics::default();
+            w.alice.tick(LocalTime::from_millis(*now as u128), &m);
+        }
     }
 }
 
@@ -334,6 +339,7 @@ fn ev_coq(ev: &Ev, pool: &[AnnSpec]) -> String {
         Ev::Elapse(dt) => format!("(EElapse {})", dt),
         Ev::AnnounceRefs(r) => format!("(ECmdAnnounceRefs {})", r),
         Ev::AddInventory(r) => format!("(ECmdAddInventory {})", r),
+        Ev::Tick(now) => format!("(ETick {})", now),
     }
 }
 
@@ -442,7 +448,11 @@ fn run_case(run: &mut Run, prop: &str, id: &str, seed: u64, stream: u64, index: 
                 };
                 Ev::RecvSub(r.range(1, sc.npeers as u64) as usize, sub, since, until)
             }
-            5 | 6 => Ev::Elapse(*r.pick(&[1, 500, 5_999, 6_000, 6_001, 30_000, 3_600_000, 4_000_000])),
+            5 => Ev::Elapse(*r.pick(&[1, 500, 5_999, 6_000, 6_001, 30_000, 3_600_000, 4_000_000])),
+            6 => if r.bool() { Ev::Elapse(*r.pick(&[0, 1, 6_000, 30_000])) } else {
+                // a raw clock reading: equal, ahead, or BEHIND the service clock
+                Ev::Tick((clock as i64 + *r.pick(&[-3_600_000i64, -1000, -1, 0, 1, 700, 6_000])) as u64)
+            },
             7 => Ev::AnnounceRefs(r.range(1, sc.nrids as u64) as usize),
             8 => Ev::AddInventory({
                 // the callers of AddInventory only pass public repositories (or unknown ones)
@@ -499,6 +509,7 @@ fn run_case(run: &mut Run, prop: &str, id: &str, seed: u64, stream: u64, index: 
             break;
         }
         if let Ev::Elapse(dt) = &ev { clock += dt; }
+        if let Ev::Tick(now) = &ev { if *now < clock { tallies.insert("clock-reading-in-the-past"); } clock = clock.max(*now); }
         match &ev { Ev::Connect(p) => { connected.insert(*p); } Ev::Disconnect(p) => { connected.remove(p); } _ => {} }
         let mut raw = vec![];
         let so = drain(&mut w, &mut raw);
